@@ -35,6 +35,7 @@ CFG = {
                   "numbers in delivered proposals/votes. One epoch, fixed committee; hash collisions and signature forgery excluded; "
                   "the execution layer's verify_payload is an environment answer; the tie model <-> Rust is the differential run.",
     "harness": "c01",
+    "replay_by_seed": True,
     "n": {"quick": 2400, "thorough": 60000},
     "rule": "simulations of 150 scheduler steps each over committees of 6, 7, 9 (mixed weights) or 11 validators with a random "
             "Byzantine subset of weight <= f; scheduler step = deliver a random pending packet (15% duplicated, 12% lost, "
